@@ -42,6 +42,41 @@ def parseAll : List SignedBlockMsg → Except Reject (List BlockMsg)
       | .error e => .error e
       | .ok ms => .ok (m :: ms)
 
+/-! ### Declared symbols (builder.go `checkDeclaredSymbols`)
+
+Every string index of a block must be declared by the time the block is read: by the
+default table, by an earlier block, or by the block itself. `Extend` skips strings that
+are already known, exactly as `SymbolTable.Insert` does. -/
+
+def extendTable (t : SymTable) (new : List Bytes) : SymTable :=
+  new.foldl (fun t s => (symInsert t s).1) t
+
+def symDeclared (t : SymTable) (i : Nat) : Bool := (symStr t i).isSome
+
+def atomDeclared (t : SymTable) : IAtom → Bool
+  | .string i => symDeclared t i
+  | _ => true
+
+def termDeclared (t : SymTable) : ITerm → Bool
+  | .atom a => atomDeclared t a
+  | .set l => l.all (atomDeclared t)
+
+def predDeclared (t : SymTable) (p : IPred) : Bool :=
+  symDeclared t p.name && p.terms.all (termDeclared t)
+
+def ruleDeclared (t : SymTable) (r : IRule) : Bool :=
+  predDeclared t r.head && r.body.all (predDeclared t) &&
+  r.exprs.all fun e => e.all fun o => match o with | .value v => termDeclared t v | _ => true
+
+def blockDeclared (t : SymTable) (m : BlockMsg) : Bool :=
+  m.facts.all (predDeclared t) && m.rules.all (ruleDeclared t) &&
+  m.checks.all fun c => c.queries.all (ruleDeclared t)
+
+/-- All blocks in order, the table growing as `Unmarshal` extends it. -/
+def blocksDeclared (t : SymTable) : List BlockMsg → Bool
+  | [] => true
+  | m :: ms => let t' := extendTable t m.symbols; blockDeclared t' m && blocksDeclared t' ms
+
 structure Parsed where
   envelope : BiscuitMsg
   blocks : List BlockMsg       -- authority first
@@ -49,13 +84,16 @@ structure Parsed where
 
 /-- `Unmarshal`. (An algorithm tag other than Ed25519 = 0 is not looked at here: the
 chain walk rejects it, `verifyLink`.) -/
-def unmarshal (bs : Bytes) : Except Reject Parsed :=
+def unmarshalFrom (base : SymTable) (bs : Bytes) : Except Reject Parsed :=
   match decodeBiscuit bs with
   | none => .error .format
   | some e =>
     match parseAll (e.authority :: e.blocks) with
     | .error r => .error r
-    | .ok ms => .ok { envelope := e, blocks := ms }
+    | .ok ms => if blocksDeclared base ms then .ok { envelope := e, blocks := ms } else .error .format
+
+/-- The package-level `Unmarshal`: no caller-supplied base table (`Unmarshaler.Symbols`). -/
+def unmarshal (bs : Bytes) : Except Reject Parsed := unmarshalFrom [] bs
 
 /-- `Unmarshal` then `AuthorizerFor` under one root key. -/
 def acceptBytes (S : SigScheme) (root : Bytes) (bs : Bytes) : Except Reject Parsed :=
